@@ -102,7 +102,7 @@ def correspond(ctx):
 def run_model(sc, active, thetas=(20., 40.)):
     from smrt import make_model, sensor_list
     sp, atm = scenes.build(sc)
-    m = make_model(sc["emmodel"], "dort", rtsolver_options=dict(n_max_stream=sc["nmax"]))
+    m = make_model(sc["emmodel"], "dort", rtsolver_options=dict(n_max_stream=sc["nmax"], **sc.get("solver_options", {})))
     freq = sc["frequency"]
     if sc.get("int_frequency") and float(freq) == int(freq):
         freq = [int(freq), int(freq) + 1000000000]   # frequencies given as integers (e.g. [37_000_000_000, 38_000_000_000]); the first is read
